@@ -63,6 +63,7 @@ struct LeafCfg {
     float b_min = -100, b_max = 100;
     std::vector<std::string> opts = {"sine", "saw", "square"};
     // port name of the logical port "val" (depends on "mode"): "val", or a name that starts with its dependency's name
+    bool colon_last = false;      // "mode:i:" / "x:i:" instead of "mode::i" / "x::i": the same alternatives (none, or one int) in the other order
     int preset_lo = 0;            // the preset selector takes the values preset_lo and preset_lo+1 (0/1, or -1/0: a negative selector)
     std::string val_name = "val";
     std::string pname(const std::string &n) const { return n == "val" ? val_name : n; }
@@ -263,7 +264,7 @@ static inline void build(Cfg &c, Rng &r)
             lp.push_back({"arr#8::i", keep(m.m), 0, CB_arr});
         } else if(n == "farr") { std::string t = "["; for(int i = 0; i < 8; ++i) t += (i ? " " : "") + fl(L.farr_def[i]); m.map("default", t + "]"); lp.push_back({"farr#8::f", keep(m.m), 0, CB_farr}); }
         else if(n == "on") { m.map("default", L.on_def ? "true" : "false"); lp.push_back({"on::T:F", keep(m.m), 0, leaf_on_cb}); }
-        else if(n == "mode") { m.map("min", "0").map("max", "9").map("default", std::to_string(L.mode_def)); lp.push_back({"mode::i", keep(m.m), 0, leaf_mode_cb}); }
+        else if(n == "mode") { m.map("min", "0").map("max", "9").map("default", std::to_string(L.mode_def)); lp.push_back({L.colon_last ? "mode:i:" : "mode::i", keep(m.m), 0, leaf_mode_cb}); }
         else if(n == "val") { m.map("depends", "mode,").map("default", std::to_string(L.val_def)); lp.push_back({keep(L.val_name + "::i"), keep(m.m), 0, leaf_val_cb}); }
     }
     if(c.enable_placement == 2) {
@@ -280,7 +281,7 @@ static inline void build(Cfg &c, Rng &r)
     for(auto &n : morder) {
         Meta m;
         if(n == "en") { m.prop("parameter").map("default", c.en_is_int ? std::to_string(c.mid_en_def) : std::string(c.mid_en_def ? "true" : "false")); mp.push_back({keep(c.en_name + (c.en_is_int ? "::i" : "::T:F")), keep(m.m), 0, mid_en_cb}); }
-        else if(n == "x") { m.prop("parameter").map("default", std::to_string(c.mid_x_def)); mp.push_back({"x::i", keep(m.m), 0, CB_x}); }
+        else if(n == "x") { m.prop("parameter").map("default", std::to_string(c.mid_x_def)); mp.push_back({c.leaf.colon_last ? "x:i:" : "x::i", keep(m.m), 0, CB_x}); }
         else if(n == "leaf") { if(c.enable_placement == 1) m.map("enabled by", c.en_name); m.map("documentation", "leaf"); mp.push_back({"leaf/", keep(m.m), &Leaf::ports, CB_leaf}); }
         else if(n == "many") { m.map("documentation", "many"); mp.push_back({"many#3/", keep(m.m), &Leaf::ports, CB_many}); }
         else if(n == "ptr") { if(c.ptr_gated) m.map("enabled by", c.en_name); m.map("documentation", "ptr"); mp.push_back({"ptr/", keep(m.m), &Leaf::ports, CB_ptr}); }
@@ -334,6 +335,7 @@ static inline void gen_cfg(Cfg &c, Rng &r)
     { static const char *EN[] = {"en", "en", "en", "leaf_on", "leafen"}; c.en_name = EN[r.below(5)]; }
     { static const char *VN[] = {"val", "val", "mode_val", "modeval"}; L.val_name = VN[r.below(4)]; }
     L.preset_lo = r.chance(0.3) ? -1 : 0;
+    L.colon_last = r.chance(0.3);
     c.ptr_gated = c.has_ptr && r.chance(0.4);
 }
 
